@@ -23,17 +23,18 @@ NL_HINT = ('assert forall|a: int, b: int| #[trigger] ((a - 1) * b) == a * b - b 
 def contracts():
     """key -> Contract for fpdec-core kernels (reused by other units as callee contracts)."""
     d = {}
+    # array indexing panics in every build profile when out of range (language guarantee):
+    # in the D-run the body is not re-verified, the index check *is* the explicit panic
     d['powers_of_ten::ten_pow'] = C(
-        pre=['n <= 38'],
-        post=[('ten_pow.value', 'r == pow10(n as nat)')],
-        entry='lemma_pow10_values();')
+        ok=[('ten_pow.index_in_range', 'n <= 38')],
+        post=[('ten_pow.value', 'r == pow10(n as nat)'), ('ten_pow.positive', 'r >= 1')],
+        entry='lemma_pow10_values();', stub_in_D=True)
     d['powers_of_ten::checked_ten_pow'] = C(
         post=[('checked_ten_pow.none_iff', 'r.is_none() <==> n > 38'),
               ('checked_ten_pow.value', 'r.is_some() ==> r.unwrap() == pow10(n as nat)')],
         entry='lemma_pow10_values();')
     d['powers_of_ten::mul_pow_ten'] = C(
-        pre=['n <= 38'],
-        ok=['in_i128(val * pow10(n as nat))'],
+        ok=[('mul_pow_ten.index_in_range', 'n <= 38'), ('mul_pow_ten.fits', 'in_i128(val * pow10(n as nat))')],
         post=[('mul_pow_ten.value', 'r == val * pow10(n as nat)')])
     d['powers_of_ten::checked_mul_pow_ten'] = C(
         post=[('checked_mul_pow_ten.some_iff', 'r.is_some() <==> (n <= 38 && in_i128(val * pow10(n as nat)))'),
@@ -65,8 +66,7 @@ def contracts():
     d['rounding::i128_div_rounded'] = C(
         pre=['divisor != 0', 'divident > i128::MIN', 'divisor > i128::MIN'],
         post=[('i128_div_rounded.round_div',
-               'r == round_div(divident * sgn(divisor as int), abs_int(divisor as int), eff_mode(mode))')],
-        entry='assert forall|a: int, b: int| #[trigger] (a * b) == b * a by { assert(a * b == b * a) by (nonlinear_arith); }')
+               'r == round_div(if divisor < 0 { -(divident as int) } else { divident as int }, abs_int(divisor as int), eff_mode(mode))')])
     return d
 
 
